@@ -15,6 +15,7 @@ import Rl.Lemmas.EditorReplaceChar
 import Rl.Lemmas.EditorUndoSafe
 import Rl.Lemmas.EditorFrame
 import Rl.Lemmas.EditorRing
+import Rl.Lemmas.EditorPop
 open Rl
 
 /-- A successful read of one byte consumes exactly one byte of the input (buffer, kernel queue or
@@ -310,27 +311,24 @@ theorem C17_nextCmd_keeps_wf (S : Segmenter) (U : UData) (cfg : EdCfg) (fuel : N
     (s s' : Ed) (c : Cmd) (h : EdWF cfg s) (hr : nextCmd S U cfg fuel sea iep s = .ok (c, s')) : EdWF cfg s' :=
   h.of_coreNC ((keeps_nextCmd S U cfg fuel sea iep).ok hr)
 
-/-- the obligations of the whole-read theorem that are NOT discharged, stated for a cross-step
-    invariant `J` that is left abstract: the facts about the undo log and the kill ring which the
-    read invariant `RdInv` does not hold and which `Undo` / `YankPop` need (intended: "the undo log
-    can be undone on the line" and, in emacs mode, `PopOK`: "the text of the last yank stands right
-    before the cursor").  (`next_cmd` is discharged: `C17_next_cmd`; the bound on `ReplaceChar`
-    counts and "no `YankPop` in vi mode" are: `C17_next_cmd_returns`.)
-    * `undo`: from `RdInv` and `J`, `Undo` does not panic and re-establishes both.  For
-      `J := UndoLogInv` this is `C17_undo_safe_of_log` (before the repair of D47 `UndoLogInv` was not kept
-      by a vi-mode read: the abort of an incremental search could leave a stale entry);
-    * `yankPop`: the same for `YankPop` in EMACS mode (`C17_yankPop_safe_of_popOK` is the no-panic
-      half for `J := PopOK`);
-    * `other`: every other command keeps `J`; and so do the steps of a read that are not commands
-      (`init` … `insert`).
-    With `J := fun _ => True` the first two fields are FALSE (there are `RdInv` states whose log does
-    not fit the line), which is why they are not stated for `RdInv` alone. -/
+/-- the obligations of the whole-read theorem that are NOT discharged.
+    * For `Undo`: a cross-step invariant `J` left abstract (intended: "the undo log can be undone on the
+      line"; for `J := UndoLogInv` the first field is `C17_undo_safe_of_log`): from `RdInv` and `J`,
+      `Undo` does not panic and re-establishes both (`undo`); every other command keeps `J` (`other`),
+      and so do the steps of a read that are not commands (`init` … `insert`).  With `J := fun _ => True`
+      the field `undo` is FALSE (there are `RdInv` states whose log does not fit the line).
+    * For `YankPop` (emacs mode; in vi mode it is never executed: `C17_next_cmd_returns`) the cross-step
+      part is DISCHARGED (round 10): the main loop carries `PopOK` ("the text of the last yank stands
+      right before the cursor") itself — `safe_mainLoop` with `PopPre`, the kill-ring frame
+      `C17_ring_frame`, `pop_preCmds`, `popI_execute` — and `rsafe_yankPop` makes `YankPop` safe from it.
+      What is left (`pop`) are three facts about ONE command each, `PopLocal`: a `Kill` that leaves the
+      last action = Yank leaves line and cursor alone; after `Yank` and after `YankPop` the pasted text
+      stands before the cursor.
+    (`next_cmd` is discharged: `C17_next_cmd`, `C17_next_cmd_returns`.) -/
 structure C17_Open (S : Segmenter) (U : UData) (cfg : EdCfg) (J : Ed → Prop) : Prop where
   undo : ∀ n s, RdInv cfg s → J s →
     wp (execute S U cfg (.undo n)) (fun _ s' => RdInv cfg s' ∧ J s') PE s
-  yankPop : cfg.vi = false → ∀ s, RdInv cfg s → J s →
-    wp (execute S U cfg .yankPop) (fun _ s' => RdInv cfg s' ∧ J s') PE s
-  other : ∀ cmd, (∀ n, cmd ≠ .undo n) → cmd ≠ .yankPop → CmdI cfg cmd → KeepsJ J (execute S U cfg cmd)
+  other : ∀ cmd, (∀ n, cmd ≠ .undo n) → CmdI cfg cmd → KeepsJ J (execute S U cfg cmd)
   init : ∀ ring input, J (initEd cfg ring input)
   initText : ∀ b p, KeepsJ J (lb S U (LB.update S U b p))
   refresh : KeepsJ J (refreshLine S U cfg)
@@ -340,36 +338,47 @@ structure C17_Open (S : Segmenter) (U : UData) (cfg : EdCfg) (J : Ed → Prop) :
   susp : ∀ s, J s → J { s with suspends := s.suspends + 1 }
   nextChar : KeepsJ J nextChar
   insert : ∀ c, KeepsJ J (editInsert S U cfg c 1)
+  pop : cfg.vi = false → PopLocal S U cfg
 
 /-- every `execute` step on a command that `next_cmd` can return (`CmdI`) is safe from the read
-    invariant and the cross-step invariant, given the open obligations; the segmenter
-    is stable (cutting a text at its own cluster boundaries does not change the clusters: true of
-    the UAX #29 segmenter, `uaxSeg_stable`) -/
+    invariant, the cross-step invariant `J` and `PopPre`, and re-establishes `RdInv`, `J` and `PopOK`
+    (emacs mode), given the open obligations; the segmenter is stable (cutting a text at its own cluster
+    boundaries does not change the clusters: true of the UAX #29 segmenter, `uaxSeg_stable`) -/
 theorem C17_exec_safe (S : Segmenter) (U : UData) (cfg : EdCfg) (hS : S.Stable) (hv : ∀ t, cfg.validator t ≠ .panic)
     (hnp : cfg.hinterPanicAt = none) (hind : cfg.indentSize ≤ 255) {J : Ed → Prop} (ho : C17_Open S U cfg J) :
     RdStep S U cfg J := by
   have both : ∀ {m : EM Status} {s : Ed}, RSafe cfg m s → wp m (fun _ s' => J s') (fun _ _ => True) s →
-      wp m (fun _ s' => RdInv cfg s' ∧ J s') PE s := by
-    intro m s h1 h2
+      wp m (fun _ s' => PopI cfg s') (fun _ _ => True) s →
+      wp m (fun _ s' => RdInv cfg s' ∧ J s' ∧ PopI cfg s') PE s := by
+    intro m s h1 h2 h3
     unfold RSafe wp at *
     cases hm : m s with
     | error e => rw [hm] at h1; exact h1
-    | ok r => rw [hm] at h1 h2; exact ⟨h1, h2⟩
+    | ok r => rw [hm] at h1 h2 h3; exact ⟨h1, h2, h3⟩
+  have both' : ∀ {m : EM Status} {s : Ed}, wp m (fun _ s' => RdInv cfg s' ∧ J s') PE s →
+      wp m (fun _ s' => PopI cfg s') (fun _ _ => True) s →
+      wp m (fun _ s' => RdInv cfg s' ∧ J s' ∧ PopI cfg s') PE s := by
+    intro m s h1 h3
+    unfold wp at *
+    cases hm : m s with
+    | error e => rw [hm] at h1; exact h1
+    | ok r => rw [hm] at h1 h3; exact ⟨h1.1, h1.2, h3⟩
   refine ⟨?_, ho.init, ho.initText, ho.refresh, ho.next, ho.reset, ho.pre, ho.susp, ho.nextChar, ho.insert⟩
-  intro cmd s hci h hj
+  intro cmd s hci h hj hp
+  have hpop := popI_execute S U cfg ho.pop cmd s hci h hp
   by_cases hc : C17_covered cmd = true
   · have hu : IsUndo cmd = false := by
       cases cmd <;> first | rfl | (simp [C17_covered] at hc)
     refine both (rsafe_of cfg (C17_execute_safe S U cfg hv hnp hind cmd hc s h.1) (keeps_grow_execute S U cfg cmd hu)
-      (keeps_inp_execute S U cfg cmd) h) (ho.other cmd ?_ ?_ hci s hj)
-    · intro n hn; subst hn; simp [C17_covered] at hc
-    · intro hn; subst hn; simp [C17_covered] at hc
+      (keeps_inp_execute S U cfg cmd) h) (ho.other cmd ?_ hci s hj) hpop
+    intro n hn; subst hn; simp [C17_covered] at hc
   · cases cmd <;> simp only [C17_covered, not_true_eq_false] at hc
-    case undo n => exact ho.undo n s h hj
-    case yankPop => exact ho.yankPop hci s h hj
+    case undo n => exact both' (ho.undo n s h hj) hpop
+    case yankPop =>
+      exact both (rsafe_yankPop S U cfg hnp h (hp hci).1) (ho.other _ (fun _ hn => by cases hn) hci s hj) hpop
     case replaceChar n c =>
       exact both (rsafe_replaceChar S U cfg hS hnp c n hci h)
-        (ho.other _ (fun _ hn => by cases hn) (fun hn => by cases hn) hci s hj)
+        (ho.other _ (fun _ hn => by cases hn) hci s hj) hpop
 
 /-- **`ReplaceChar` with a count that fits the code's `RepeatCount`** is safe for a stable
     segmenter: the deleted text has at most `n` clusters, so `RepeatCount::try_from(count).unwrap()`
@@ -416,7 +425,8 @@ theorem C17_next_cmd (S : Segmenter) (U : UData) (cfg : EdCfg) (hnp : cfg.hinter
     it returns in such a state, and the command it returns is acceptable (`CmdI`):
     a `ReplaceChar(n, _)` has `n ≤ 65535` — so `RepeatCount::try_from` in `edit_replace_char` is
     only ever reached with a count that fits — and in vi mode it is never `YankPop`.  The only
-    assumption is on the application's bindings (`BindsI`): a bound `ReplaceChar` carries a count
+    assumption is on the application's bindings (`BindsI`; it also asks that `Replace` and `ViYankTo`,
+    vi's `c`/`s`/`R` and `y` commands, are not bound in emacs mode): a bound `ReplaceChar` carries a count
     that fits its type (`RepeatCount = u16`: every value of the real type does), and `YankPop` is not
     bound in vi mode. -/
 theorem C17_next_cmd_returns (S : Segmenter) (U : UData) (cfg : EdCfg) (hb : BindsI cfg)
@@ -448,7 +458,8 @@ theorem C17_dispatch_returns (S : Segmenter) (U : UData) (cfg : EdCfg) (hb : Bin
 /-- **The only panic of a whole read is D43** — for helpers that do not panic, an indent size that
     fits the code's `u8`, a completer that reports a start on a character boundary at or before the
     cursor, acceptable bindings (`BindsI`), and GIVEN the open obligations `C17_Open` for some
-    cross-step invariant `J` (`Undo`, `YankPop` in emacs mode, and that `J` is kept).  If the
+    cross-step invariant `J` (`Undo` and that `J` is kept; for `YankPop` only the three one-command
+    facts `PopLocal` — the loop carries `PopOK` itself).  If the
     read ends with the panic outcome, the state it ends in has a last insertion longer than 65535
     bytes (and the panic was the re-do of vi's `R`).  Covers `next_cmd` in both modes, every other
     command, circular and list completion, incremental search, the dispatch loop, quoted insert,
